@@ -240,6 +240,7 @@ def run(repo: Repo, rep: Report, tier: str) -> None:
     check_timeout_propagation(repo, rep, "artim-configured")
     check_timer_run_state(repo, rep, "artim-run-state")
     check_connect_failure(repo, rep, "connect-failure")
+    check_send_failure(repo, rep, "send-failure")
     from ..delegate import delegate
     rep.rule("closed-not-invalid", "a connection that closes in the middle of a PDU is Evt17 (transport closed), not Evt19 (invalid PDU) - C02's no-extra-rejection and C03's short-is-closed")
     delegate(repo, rep, tier, "C02", ("no-extra-rejection",), "closed-not-invalid", "a PDU cut short by the peer closing the connection is classified as an invalid PDU: Sta6 + Evt19 -> AA-8 (A-ABORT PDU sent, ARTIM started, Sta13) instead of Sta6 + Evt17 -> AA-4 (A-P-ABORT indication, Sta1)")
@@ -571,3 +572,67 @@ def _delegate_event_sources(repo, rep, tier):
             f2["rule"] = "event-sources"
             rep.obligations.append(f2)
             rep.failures.append(f2)
+
+
+def check_send_failure(repo: Repo, rep: Report, rule: str) -> None:
+    """A write the peer's close / reset makes fail (EPIPE, ECONNRESET) is the transport's 'connection closed'
+    indication: Evt17, for which Table 9-10 has a row in every state with a connection. AssociationSocket.send()
+    is evaluated (sa/minipy.py; the socket, the event queue and evt are recording stand-ins, the object's other
+    methods are resolved from the class source) with a socket whose send() fails at once / after a partial
+    write / never: a failed write puts exactly one Evt17 on the event queue - also when the error path goes
+    through close(), whose early return for an already unconnected socket queues nothing - and a complete
+    write puts none."""
+    from ..minipy import Interp, Obj, Raised, Unsupported
+
+    rep.rule(rule, "AssociationSocket.send(): a failed write queues exactly one Evt17, a complete write none (evaluated, close() followed)")
+    tr = repo.mod("transport")
+    ci = tr.classes.get("AssociationSocket")
+    rep.need(ci is not None, "transport.AssociationSocket vanished")
+    fn = repo.func("transport", "AssociationSocket.send")
+    fq = "transport.AssociationSocket.send"
+
+    def resolver(cls, name):
+        if cls != "AssociationSocket":
+            return None
+        _, f_ = repo.lookup_method(ci, name, "method")
+        if f_ is None:
+            return None
+        return f_, any(norm(d) == "staticmethod" for d in f_.decorator_list)
+
+    n = 0
+    for fail_at in (1, 2, None):
+        for connected in (True,):
+            events, written, calls = [], [], [0]
+
+            def sock_send(s_, data, *a, fail_at=fail_at, written=written, calls=calls):
+                calls[0] += 1
+                if fail_at is not None and calls[0] >= fail_at:
+                    raise Raised("OSError")
+                k = 3 if fail_at is not None else len(data)
+                written.append(bytes(data[:k]))
+                return k
+
+            sock = Obj("socket", {"@send": sock_send, "@sendall": sock_send, "@shutdown": lambda s_, *a: None, "@close": lambda s_: None, "@settimeout": lambda s_, *a: None})
+            q = Obj("Queue", {"@put": lambda s_, e_, *a, events=events: events.append(e_), "@put_nowait": lambda s_, e_, events=events: events.append(e_)})
+            assoc = Obj("Association", {"dul": Obj("DUL", {"event_queue": q})})
+            me = Obj("AssociationSocket", {"socket": sock, "_is_connected": connected, "assoc": assoc, "event_queue": q, "_ready": None, "tls_args": None, "select_timeout": 0.5})
+            g = {"evt": Obj("evt", {"@trigger": lambda s_, *a, **k: None, "EVT_DATA_SENT": "EVT_DATA_SENT", "EVT_CONN_CLOSE": "EVT_CONN_CLOSE"}), "socket": Obj("socketmodule", {"SHUT_RDWR": 2, "error": "OSError"}), "memoryview": lambda b: b}
+            it = Interp(g, method_resolver=resolver)
+            data = b"0123456789"
+            inst = "socket.send() fails at once" if fail_at == 1 else "socket.send() fails after a partial write" if fail_at == 2 else "socket.send() succeeds"
+            try:
+                it.call_function(fn, {"self": me, "bytestream": data})
+            except Unsupported as exc:
+                rep.defer(f"{fq}: not evaluable with stand-ins ({exc})")
+                return
+            except Raised as r:
+                rep.fail(rule, fq, f"[{inst}] raises {r.kind}", f"send() lets {r.kind} escape into the state machine's action instead of reporting Evt17", mod=tr, node=fn)
+                continue
+            n += 1
+            if fail_at is None:
+                ok = not events and b"".join(written) == data
+                rep.check(ok, rule, fq, f"[{inst}] wrote {b''.join(written)!r}, queued {events}", "a complete write must put the whole PDU on the wire and raise no event", mod=tr, node=fn)
+            else:
+                ok = events == ["Evt17"]
+                rep.check(ok, rule, fq, f"[{inst}] queued {events}", f"a failed write must queue exactly one Evt17 (PS3.8 Table 9-10: Evt17 -> AA-4 / AR-5 in every state with a connection); queued: {events} - the state machine otherwise stays in its state with a dead connection until a timer expires (an error path through close() returns early once _is_connected is False)", mod=tr, node=fn)
+    rep.floor("send() outcomes evaluated", n, 3)
